@@ -7,13 +7,12 @@
      IPv4 datagram: version 4, IHL >= 5, IHL*4 <= TotalLength <= bytes present (link padding may
      follow), protocol 1, whose payload (bytes IHL*4 .. TotalLength) is an ICMP message of at
      least 8 bytes with type 0 and identifier i; or
-   * the same with type 0x86dd carrying an IPv6 packet: version 6, 40 + PayloadLength = bytes
-     present, next header 58, whose payload is an ICMPv6 message of at least 8 bytes with type 129
-     and identifier i.
+   * the same with type 0x86dd carrying an IPv6 packet: version 6, 40 + PayloadLength <= bytes
+     present (link padding may follow), next header 58, whose payload (PayloadLength bytes) is an
+     ICMPv6 message of at least 8 bytes with type 129 and identifier i.
    Readings where the property text is silent (DESIGN 4.3 ambiguity rule, library convention):
    the ICMP checksum and code are not part of well-formedness (the library documents "TODO: verify
-   checksum?"); IPv6 extension headers are not walked and the IPv6 length must match exactly
-   (layer_ip6.go convention, DESIGN section 11 #9 belongs to C02); fragmentation is ignored. *)
+   checksum?"); IPv6 extension headers are not walked; fragmentation is ignored. *)
 From PV Require Import Base.Prelude.
 Open Scope N_scope.
 
@@ -44,8 +43,8 @@ Definition icmp_message (f : bytes) : option (icmp_family * bytes) :=
       else
         let ver := at_ d 0 / 16 in
         let pl := N.to_nat (word_at d 4) in
-        if (ver =? 6) && Nat.eqb (40 + pl) n && (at_ d 6 =? 58)
-        then Some (V6, skipn 40 d)
+        if (ver =? 6) && Nat.leb (40 + pl) n && (at_ d 6 =? 58)
+        then Some (V6, firstn pl (skipn 40 d))
         else None
     else None.
 
